@@ -111,6 +111,17 @@ def judge(case, R, tin, tout, f):
                               % (case.lang, k, [t for t, d in a[max(0, k - 2):k + 3]], [t for t, d in b[max(0, k - 2):k + 3]])))
 
 
+_BIN_C = ["+", "-", "*", "/", "%", "<<", ">>", "<", ">", "<=", ">=", "==", "!=", "&", "^", "|", "&&", "||", "=", "*=", "/=", "%=", "+=", "-=", "<<=", ">>=", "&=", "^=", "|=", ","]
+PUNCT_C = ("#define CAT(a, b) a ## b\n#define STR(x) # x\n#define VA(...) f(__VA_ARGS__)\nstruct s { int m; int n : 3; };\nint f(struct s *p, struct s v, int a, int b, ...)\n{\n"
+           + "".join("    x = a%sb;\n    y = a %s b;\n" % (o, o) for o in _BIN_C)
+           + "    a++; ++a; b--; --b; x = !a; y = ~b; z = -a + +b; w = *q; u = &a;\n    p->m = v.n; x = a ? b : c; arr[1] = 2; goto l1;\nl1: ;\n    return (a);\n}\n"
+           )
+PUNCT_CPP = (PUNCT_C.replace("struct s *p, struct s v,", "s *p, s v,")
+             + "struct T { int m; int f(); };\nint T::*pm = &T::m;\nint (T::*pf)() = &T::f;\nint h(T *p, T v)\n{\n    x = p->*pm; y = v.*pm; z = (p ->* pf)(); w = (v .* pf)();\n"
+             "    a = b <=> c; a = (b<=>c) < 0; n = ::g; m = T::m;\n    bool q = a and b or not c; q = a bitand b bitor c xor d; q = compl a; a and_eq b; a or_eq b; a xor_eq b; q = a not_eq b;\n    return 0;\n}\n"
+             "template <typename... A> int k(A... a) { return sizeof...(a); }\nauto l = [](auto&&... x) -> int { return 0; };\n")
+
+
 def make_cases(r, tier):
     nc, ng, no = (60, 60, 30) if tier == "quick" else (1100, 1500, 500)
     cases = []
@@ -146,6 +157,11 @@ def make_cases(r, tier):
         if k == 1 and r.random() < 0.7:
             cfg += "pos_class_colon=%s\npos_constr_colon=%s\npos_class_comma=%s\npos_constr_comma=%s\n" % tuple(r.choice(lx.TOKPOS) for _ in range(4))
         cases.append(lx.LCase("gen:%d:%s:%s" % (i, ["tokens", "class", "literals"][k], tag), lang, cfg, src.encode("utf-8")))
+    # every punctuator of the C and C++ standards (ISO C 6.4.6, C++ [lex.operators]) once glued and once spaced, under the default,
+    # the all-remove and the all-force configuration: a missing or mis-flagged entry of the tokenizer's symbol table shows here
+    for lang, text in (("C", PUNCT_C), ("CPP", PUNCT_CPP)):
+        for tag, cfg in (("default", ""), ("sp-remove", sp_remove), ("sp-force", sp_force)):
+            cases.append(lx.LCase("punctuators:%s:%s" % (lang, tag), lang, cfg, text.encode()))
     others = lx.corpus_cases(r, no, langs=("CS", "D", "JAVA", "PAWN", "VALA", "ECMA"))
     for i, c in enumerate(others):
         c.cfg_text, tag = cfg_for(i)
